@@ -40,7 +40,7 @@ configurations are only seen by the textual scan; libc/BLAS internals are out of
 import sys, os, re, json, hashlib, subprocess, tempfile, shutil
 from concurrent.futures import ProcessPoolExecutor
 
-VERSION = 'census-9'
+VERSION = 'census-10'
 sys.setrecursionlimit(20000)
 WRITABLE_NM = set('bBdDCsSgG')
 
@@ -100,6 +100,11 @@ def qtype(n):
 
 # ----------------------------------------------------------------------------- AST analysis
 ASSIGN_KINDS = ('BinaryOperator', 'CompoundAssignOperator')
+# libc functions that read or write process-wide state (environment, hidden static buffers, global generators,
+# locale, signal dispositions): a library routine that calls one depends on, or changes, what other calls see
+IMPURE_LIBC = frozenset('''getenv secure_getenv setenv putenv unsetenv clearenv rand srand random srandom drand48 erand48 lrand48 nrand48
+mrand48 jrand48 srand48 seed48 lcong48 strtok setlocale localtime gmtime asctime ctime tmpnam tempnam signal sigaction atexit
+strerror getlogin ttyname readdir getpwnam getpwuid gethostbyname chdir umask'''.split())
 CMP_OPS = ('==', '!=', '<', '>', '<=', '>=', '&&', '||')
 TRANSPARENT_CASTS = ('NoOp', 'BitCast', 'LValueBitCast')
 
@@ -179,6 +184,7 @@ def analyse_tu(ast):
     defs = []; idkey = {}; allnames = set()
     uses = {}
     funcs = {}
+    impure = []
     def use(key):
         return uses.setdefault(key, dict(write=[], escape=[], passes=[], addr=False, reads=0))
     top = ast.get('inner') or []
@@ -231,7 +237,10 @@ def analyse_tu(ast):
                                          tokLen=loc.get('tokLen', 0), static=True))
                 elif node.get('storageClass') == 'extern':
                     idkey[node['id']] = 'g:' + node.get('name', '?')     # block-scope extern declaration
-            elif k == 'DeclRefExpr':
+            elif k == 'DeclRefExpr' and (node.get('referencedDecl') or {}).get('kind') == 'FunctionDecl' and \
+                    (node.get('referencedDecl') or {}).get('name') in IMPURE_LIBC:
+                impure.append([(node.get('referencedDecl') or {}).get('name'), fname])
+            if k == 'DeclRefExpr':
                 rd = node.get('referencedDecl') or {}
                 rid = rd.get('id')
                 if rd.get('kind') == 'VarDecl':
@@ -278,7 +287,7 @@ def analyse_tu(ast):
                     if isinstance(ch, dict) and ch: rec2(ch)
                 stack.pop()
             for ch in n['inner']: rec2(ch)
-    return dict(defs=defs, uses=uses, funcs=funcs, names=sorted([a, b] for a, b in allnames))
+    return dict(defs=defs, uses=uses, funcs=funcs, impure=impure, names=sorted([a, b] for a, b in allnames))
 
 # ----------------------------------------------------------------------------- textual scan
 COND_RE = re.compile(r'^\s*#\s*(if|ifdef|ifndef|elif|else|endif)\b(.*)$')
@@ -502,6 +511,16 @@ def build_records(results):
             records.append(dict(file=f.get('rel', '?'), name='%s(%s)' % (k[1], p.get('name', '?')), kind='options-param', ctype=p.get('ptype', ''), line=0,
                                 written=not ro, escapes=bool(p['escape']), addrTaken=False, insideIfZero=False, guardOnly=False, inObject=False,
                                 note='; '.join(why) if why else 'only read'))
+    for r in results:
+        seen_imp = set()
+        for cfg in (r['on'], r['off']):
+            if not cfg: continue
+            for callee, fn in cfg.get('impure', []):
+                if (callee, fn) in seen_imp: continue
+                seen_imp.add((callee, fn))
+                records.append(dict(file=r['rel'], name='%s->%s' % (fn, callee), kind='impure-call', ctype='', line=0, written=True, escapes=False,
+                                    addrTaken=False, insideIfZero=False, guardOnly=False, inObject=False,
+                                    note='calls %s(): reads or writes process-wide state' % callee))
     records.sort(key=lambda x: (x['file'], x['name'], x['kind'], x['line']))
     return records
 
@@ -513,7 +532,7 @@ namespace Slu.Gen
 structure StaticObj where
   file : String          -- translation unit, relative to the repository
   name : String          -- object name (`function.name` for block-scope statics)
-  kind : String          -- file-static | global | local-static | inactive | nm-only | options-param
+  kind : String          -- file-static | global | local-static | inactive | nm-only | options-param | impure-call
   ctype : String
   line : Nat
   written : Bool         -- some function of the library assigns / increments it (AST)
